@@ -339,8 +339,11 @@ def dbColumns (ti : TableInfo) : List String :=
   let c1 := addField ti.fields "id"
   if ti.hasUpdateKeys then addField c1 "_sf_update_key" else c1
 
-/-- `csv.DictWriter(file, list(table.fields.keys()) + ["id"])` (extra keys raise `ValueError`) -/
-def csvHeader (ti : TableInfo) : List String := ti.fields ++ ["id"]
+/-- `CSVOutputStream.open_writer`: `fieldnames = list(table.fields.keys()) + ["id"]`, then
+    `fieldnames.append("_sf_update_key")` iff the table has update keys (since fix bc0f717; before it
+    the header stopped at `id` — defect D16); `csv.DictWriter` raises `ValueError` on extra keys. -/
+def csvHeader (ti : TableInfo) : List String :=
+  ti.fields ++ ["id"] ++ (if ti.hasUpdateKeys then ["_sf_update_key"] else [])
 
 /-- `{key: row[key] if key in row else fallback_dict[key] for key in fallback_dict.keys()}` -/
 def projectRow {ν : Type} (cols : List String) (row : List (String × ν)) : List (String × Option ν) :=
